@@ -73,7 +73,8 @@ def replay(c):
         feed = "\n".join(l for cs in cases for l in [cs.header] + cs.ops) + "\n"
         print("---- model"); print(vf.sh([drv], stdin=feed)[1])
         return 1 if "\n! " in "\n" + out else 0
-    return vf.generic_replay(c, sys.modules[__name__])
+    import types
+    return vf.generic_replay(c, types.SimpleNamespace(HARNESS=HARNESS, DRIVER=DRIVER, REPLAY_ARGS=REPLAY_ARGS))
 
 
 META = {
